@@ -646,6 +646,10 @@ func runC04(c *fw.Ctx) {
 	// decorations on and around an import alias that the import manager has to rename
 	c04AliasRename(c)
 
+	// one caller-side slice (with and without spare capacity) handed to the list operations of
+	// several nodes in turn: every node's comments are its own
+	c04SharedArguments(c)
+
 	// two decorated files restored by one FileRestorer and printed only afterwards: every comment
 	// exactly once, in the output of its own file
 	c04Reuse(c)
@@ -955,6 +959,111 @@ func c04AliasRename(c *fw.Ctx) {
 					})
 				}
 			}
+		}
+	}
+}
+
+// c04SharedArguments assigns decorations through Append / Prepend / Replace with one argument slice
+// that is re-used (and re-filled) for node after node; afterwards every comment must be printed
+// exactly once and the accessor must show each node's own list.
+func c04SharedArguments(c *fw.Ctx) {
+	if c.Shard != 0 {
+		return
+	}
+	const nf = 5
+	src := "package p\n"
+	for k := 0; k < nf; k++ {
+		src += fmt.Sprintf("\n// doc %d\nfunc f%d() {\n\tg%d() // call %d\n}\n", k, k, k, k)
+	}
+	for _, op := range []string{"Prepend", "Append", "Replace", "Prepend-then-Append"} {
+		for _, shape := range []string{"spare-capacity", "exact", "sub-slice", "refilled"} {
+			id := "shared-arguments:" + op + "/" + shape
+			c.Case(id, func() {
+				f, err := decorator.Parse(src)
+				if err != nil {
+					panic(err)
+				}
+				mk := func() []string {
+					switch shape {
+					case "spare-capacity":
+						b := make([]string, 0, 8)
+						return append(b, "", "")
+					case "sub-slice":
+						big := []string{"", "", "// not part of the argument", "// nor this"}
+						return big[:2]
+					}
+					return []string{"", ""}
+				}
+				arg := mk()
+				want := map[*dst.FuncDecl][]string{}
+				all := map[string]int{}
+				for k, d := range f.Decls {
+					fd := d.(*dst.FuncDecl)
+					if shape != "refilled" && shape != "spare-capacity" && shape != "sub-slice" {
+						arg = mk()
+					}
+					arg[0], arg[1] = fmt.Sprintf("// banner %d a", k), fmt.Sprintf("// banner %d b", k)
+					doc := fmt.Sprintf("// doc %d", k)
+					switch op {
+					case "Prepend":
+						fd.Decs.Start.Prepend(arg...)
+						want[fd] = []string{arg[0], arg[1], doc}
+					case "Append":
+						fd.Decs.Start.Append(arg...)
+						want[fd] = []string{doc, arg[0], arg[1]}
+					case "Replace":
+						fd.Decs.Start.Replace(arg...)
+						want[fd] = []string{arg[0], arg[1]}
+					default:
+						fd.Decs.Start.Prepend(arg...)
+						fd.Decs.Start.Append(arg[:1]...)
+						want[fd] = []string{arg[0], arg[1], doc, arg[0]}
+					}
+					for _, t := range want[fd] {
+						all[t]++
+					}
+					all[fmt.Sprintf("// call %d", k)]++
+				}
+				for k, d := range f.Decls {
+					fd := d.(*dst.FuncDecl)
+					got := []string{}
+					for _, t := range fd.Decorations().Start.All() {
+						if t != "\n" {
+							got = append(got, t)
+						}
+					}
+					if !sameList(got, want[fd]) {
+						c.Violate("accessor-own-storage", "accessor-own-storage:"+op+":"+shape, fmt.Sprintf("%s: f%d: Start holds %q after all assignments, want %q", id, k, got, want[fd]), src)
+						return
+					}
+				}
+				var buf bytes.Buffer
+				if err := decorator.Fprint(&buf, f); err != nil {
+					c.Violate("print-failed", "print-failed:shared-arguments", id+": "+err.Error(), src)
+					return
+				}
+				toks, _ := obs.Scan(buf.Bytes())
+				occ := map[string]int{}
+				for _, t := range toks {
+					if t.Tok == token.COMMENT {
+						occ[t.Lit]++
+					}
+				}
+				for t, n := range all {
+					if occ[t] != n {
+						c.Violate("print-exactly-once", "print-exactly-once:shared-arguments:"+op+":"+shape, fmt.Sprintf("%s: comment %q assigned %d time(s), printed %d time(s)\n%s", id, t, n, occ[t], buf.String()), src)
+						return
+					}
+				}
+				for t, n := range occ {
+					if all[t] == 0 {
+						c.Violate("print-exactly-once", "print-exactly-once:shared-arguments:extra:"+op+":"+shape, fmt.Sprintf("%s: comment %q printed %d time(s) but never assigned", id, t, n), src)
+						return
+					}
+				}
+				c.Count("shared_argument_cases", 1)
+				c.Nontrivial(id)
+			})
 		}
 	}
 }
